@@ -4,4 +4,4 @@ Require ExtrOcamlBasic.
 From hls Require Import Base Float Lex Kinds Types Tags Line Media Master Dump Builder.
 Extraction Language OCaml.
 Extraction "../ocaml/model.ml"
-  run_media run_media_with run_master with_excess mb_default run_tag run_builder.
+  run_media run_media_with run_master with_excess mb_default run_tag run_builder run_assoc.
